@@ -177,3 +177,96 @@ PROPS["C06"] = dict(
     assumptions=API_STUBS,
     trusted=["api_logic.c mock heap and oracles", "128-bit reference product for overflow"],
 )
+
+
+# ------------------------------------------------------------------------------------------------
+# OS layer (os_layer.c): C11 round trip, C07 refusals, C13 rounding, C18 purge option logic
+OS_STUBS = ["_mi_prim_alloc: may refuse; else any fresh page-aligned address (disjoint from mapped ranges) recorded in a ghost interval map (<= 4 intervals)",
+            "_mi_prim_free: asserts the range lies inside mapped memory (and whole-mapping only without partial free), updates the ghost map",
+            "_mi_prim_commit/decommit/reset/protect: may refuse on every call; record the range",
+            "mi_option_get/is_enabled: symbolic option values; statistics and messages: empty bodies",
+            "mi_os_mem_config: has_partial_free/has_overcommit/virtual_address_bits symbolic, page size 4096"]
+
+
+def os_ob(id, entry, variant=None, **kw):
+    d = list(kw.pop("defines", []))
+    if variant is not None:
+        d.append("VARIANT=%d" % variant)
+    kw.setdefault("std_checks", False)   # addresses are plain integers (never dereferenced): pointer instrumentation is meaningless here
+    kw.setdefault("unwind", 6)
+    kw.setdefault("timeout", 900)
+    return O(id, "os_layer.c", entry, defines=d, **kw)
+
+
+def os_roundtrip_obs(prefix):
+    fn = ["_mi_os_alloc", "_mi_os_alloc_aligned", "_mi_os_alloc_aligned_at_offset", "mi_os_prim_alloc_aligned", "mi_os_prim_alloc_at",
+          "_mi_os_free_ex", "_mi_os_free", "mi_os_prim_free", "_mi_os_good_alloc_size", "_mi_os_get_aligned_hint", "_mi_os_commit", "_mi_os_decommit"]
+    return [os_ob(prefix + ".os_roundtrip.%s" % n, "h_os_roundtrip", v, funcs=fn, cost=60,
+                  bounds="size 1..2^40, alignment any power of two <= 2^32, offset <= MI_SEGMENT_SIZE, every OS answer symbolic (refusal, address, zero)")
+            for v, n in enumerate(["alloc", "alloc_aligned", "alloc_aligned_at_offset"])]
+
+
+def c11():
+    return os_roundtrip_obs("C11") + [
+        os_ob("C11.good_alloc_size", "h_good_alloc_size", funcs=["_mi_os_good_alloc_size"], bounds="all sizes <= PTRDIFF_MAX", cost=10)]
+
+
+PROPS["C11"] = dict(
+    obligations=c11,
+    bounds="one OS allocation of 1..2^40 bytes, any power-of-two alignment <= 2^32, any offset <= 32MiB, followed by its free; ghost address space of <= 4 intervals",
+    outside="RSS/footprint measurements and 'N repetitions' (inductive consequence of the round trip); Linux honouring munmap; segment/arena level release is decided under the segment lemmas",
+    assumptions=OS_STUBS,
+    trusted=["os_layer.c ghost address-space model"],
+)
+
+
+# ------------------------------------------------------------------------------------------------
+# C14 bitmap rely/guarantee (bitmap_rg.c)
+RG_ASSUME = ["interleavings are covered at the granularity of atomic operations under sequential consistency: before each atomic access all other threads may rewrite the accessed word except bits owned by this thread (rely = others never clear or overwrite bits they do not own)",
+             "interference budget: at most IBUDGET (2) interfering changes per call (bounds CAS retries); weak-memory reorderings are outside the claim"]
+
+
+def rg_ob(id, entry, nf=2, defines=(), **kw):
+    kw.setdefault("unwind", nf + 4)      # CAS retry loops (interference budget 2), field loops, rollback recursion (3 retries)
+    kw.setdefault("unwindset", ["_mi_bitmap_try_find_claim_field.0:68"])   # bit scan: 64 positions + CAS retries
+    kw.setdefault("timeout", 1200)
+    kw.setdefault("std_checks", True)
+    return O(id, "bitmap_rg.c", entry, defines=["NF=%d" % nf] + list(defines), **kw)
+
+
+def c14():
+    fa = ["_mi_bitmap_try_find_from_claim_across", "mi_bitmap_try_find_claim_field_across", "_mi_bitmap_try_find_from_claim", "_mi_bitmap_try_find_claim_field", "mi_bitmap_mask_"]
+    obs = [
+        rg_ob("C14.try_claim", "h_try_claim", funcs=["_mi_bitmap_try_claim", "_mi_bitmap_unclaim"], cost=20, bounds="2 fields, any bit range inside a field"),
+        rg_ob("C14.unclaim_across", "h_unclaim_across", funcs=["_mi_bitmap_unclaim_across", "mi_bitmap_mask_across"], cost=30, bounds="2 fields, any range"),
+        rg_ob("C14.claim_across", "h_claim_across", funcs=["_mi_bitmap_claim_across", "_mi_bitmap_is_claimed_across"], cost=30, bounds="2 fields, any range (sequential)"),
+    ]
+    LOW0 = ["WIN0=0xFFFFFFFFFFFF0000ul", "WIN1=0xFFFFFFFFFFFFFFFFul"]      # free window: bits 0..15 of field 0
+    HIGH1 = ["WIN0=0xFFFFFFFFFFFFFFFFul", "WIN1=0x0000FFFFFFFFFFFFul"]     # free window: bits 48..63 of field 1 (end of the bitmap)
+    CROSS = ["WIN0=0x00FFFFFFFFFFFFFFul", "WIN1=0xFFFFFFFFFFFFFF00ul"]     # free window: top 8 bits of field 0 + low 8 bits of field 1
+    # scan-loop bound: window positions + walk through the pinned region (shift <= count per step) + CAS retries
+    for wn, w, cmin, cmax, scan in (("low0", LOW0, 8, 64, 28), ("high1", HIGH1, 1, 16, 22), ("cross", CROSS, 3, 64, 34)):
+        st = 1 if wn == "high1" else 0
+        us = ["_mi_bitmap_try_find_claim_field.0:%d" % scan]
+        if wn != "cross":
+            obs.append(rg_ob("C14.find_claim_field.%s" % wn, "h_find_claim_field", defines=w + ["START=%d" % st, "FCMIN=%d" % cmin, "FCMAX=%d" % cmax], std_checks=False, unwindset=us,
+                             funcs=["_mi_bitmap_try_find_claim_field"], cost=100, bounds="16-bit symbolic window (%s), field %d, count %d..%d, <=2 interfering changes" % (wn, st, cmin, cmax)))
+        for s0 in ((0, 1) if wn != "low0" else ()):   # (claims of > 2 blocks only ever use the top free bits of a field: nothing to claim in a low window)
+            obs.append(rg_ob("C14.find_claim_across.%s.s%d" % (wn, s0), "h_find_claim_across", defines=w + ["START=%d" % s0, "CMIN=%d" % cmin, "CMAX=%d" % cmax] + (["EXPECT_CROSS"] if wn == "cross" else []),
+                             std_checks=False, unwindset=us, funcs=fa, cost=200, bounds="2 fields, 16-bit symbolic window (%s), start field %d, count %d..%d, rollback retries" % (wn, s0, cmin, cmax)))
+    for s0 in (0, 1):
+        obs.append(rg_ob("C14.find_claim_across.big.s%d" % s0, "h_find_claim_across", defines=["START=%d" % s0, "CMIN=65", "CMAX=128", "EXPECT_CROSS"], std_checks=False,
+                         replace={"_mi_bitmap_try_find_claim_field": "stub_unreachable_find_claim_field"},
+                         funcs=fa, cost=200, bounds="2 fields fully symbolic, start field %d, count 65..128 (multi-field claims)" % s0))
+    obs.append(rg_ob("C14.find_claim_across.nf3", "h_find_claim_across", nf=3, defines=["CMIN=65", "CMAX=192", "EXPECT_CROSS"], std_checks=False, funcs=fa, cost=600, tier="thorough", timeout=3600,
+                     replace={"_mi_bitmap_try_find_claim_field": "stub_unreachable_find_claim_field"}, bounds="3 fields fully symbolic, count 65..192"))
+    return obs
+
+
+PROPS["C14"] = dict(
+    obligations=c14,
+    bounds="bitmaps of 2 fields (128 arena blocks; 3 fields thorough); for claims of <= 64 blocks a 16-bit window of the bitmap is symbolic (low end, end of bitmap, across the field boundary) and the rest pinned in-use; multi-field claims (65..128 blocks) on fully symbolic contents; <= 2 interfering changes per call",
+    outside="weak memory orders; composition 'disjoint bit ranges => disjoint address ranges' is mi_arena_block_start arithmetic (arena lemmas); more than 3 bitmap fields",
+    assumptions=RG_ASSUME,
+    trusted=["bitmap_rg.c rely/guarantee encoding (ghost ownership mask)"],
+)
